@@ -101,6 +101,12 @@ theorem step_pending (cfg : Cfg) (s : St) (op : Op) :
                 · rename_i h
                   simp only [revokeIf_pending, incUsed_pending, mintExtra_pending, setMints_pending]
                   exact (mint_ok_next h).2.2.2.2
+  | exchange cl subj st rt sc =>
+    left; simp only [step]
+    repeat (first
+      | rfl
+      | (rename_i h; exact (mintX_ok_next h).2.2.2.2)
+      | split)
   | userinfo t => left; simp only [step]; repeat (first | rfl | split)
   | introspect c t => left; simp only [step]; repeat (first | rfl | split)
   | revokeEp c t => left; simp only [step]; repeat (first | rfl | split)
@@ -108,6 +114,7 @@ theorem step_pending (cfg : Cfg) (s : St) (op : Op) :
   | revokeGrant g => left; simp only [step]; repeat (first | rfl | split)
   | revokeClient u c => left; simp only [step]; split; rfl; exact foldl_revokeGr_pending _ _
   | revokeUser u => left; simp only [step]; split; rfl; exact foldl_revokeGr_pending _ _
+  | logoutAll u => left; simp only [step]; split; rfl; exact foldl_revokeGr_pending _ _
   | remove g => left; simp only [step]; repeat (first | rfl | split)
 
 /-! ### invariants of reachable states used by C02 -/
